@@ -111,6 +111,7 @@ func (s *DB) batchTimeoutHandle(ctx context.Context) {
 
 		select {
 		case <-timer.C:
+			verifPoint("timer.beforeFlush:" + s.path)
 			s.mutBatch.Lock()
 			err := s.putBatch(s.batch)
 			if err != nil {
@@ -122,6 +123,7 @@ func (s *DB) batchTimeoutHandle(ctx context.Context) {
 			s.batch.Reset()
 			s.sizeBatch = 0
 			s.mutBatch.Unlock()
+			verifPoint("timer.afterFlush:" + s.path)
 		case <-ctx.Done():
 			log.Debug("closing the timed batch handler", "path", s.path)
 			return
